@@ -301,7 +301,8 @@ def classify(item, clauses):
         src_idx = [r["idx"] for r in (item["prog"]["T"] if "prog" in item else item["T"])["rows"]]
         if dup_labels(src_idx) and any(o["op"] in ("filter", "sfilter") and any(has_expr(later, "idxs") for later in steps[i + 1:])
                                        for i, o in enumerate(steps[:-1])):
-            return "pipeline:filter-then-index-series:duplicate-labels:%s" % group
+            # one input class with two faces (the mis-aligned predicate raises, or it silently selects / pairs other cells)
+            return "pipeline:filter-then-index-series:duplicate-labels:%s" % ("raised" if group == "raised" else "rows")
         if group == "structure" and reassigned_column(steps):
             return "pipeline:assign-reassigned-column:structure"
         extra = []
@@ -332,8 +333,9 @@ def classify(item, clauses):
     if len(item["layout"]) == 1 and len(item["layout2"]) == 1 and group == "raised" and li != ri:
         return "aligned:%s:single-partitions:different-divisions:raised" % cls
     extra = ["same-index" if li == ri else "different-index"]
-    if li != ri and dup_labels(li) & dup_labels(ri):
-        extra.append("shared-duplicate-label")
+    if li != ri and dup_labels(li) & dup_labels(ri) and cls == "binop" and group != "raised":
+        # one input class whatever clause shows it (row count, cells, dtype of the shorter result, whole vs partitions)
+        return "aligned:binop:different-index:shared-duplicate-label:rows"
     return ":".join(["aligned", cls] + extra + [group])
 
 
